@@ -70,8 +70,11 @@ BIG_CAPS_Q = "7,8,255,256"
 BIG_CAPS_T = "5,7,8,15,16,254,255,256"
 
 
-CONTRACT_FLAGS = {"checks": ["-DVH_CONTRACT", "-DTETL_ENABLE_CONTRACT_CHECKS", "-DTETL_ENABLE_CUSTOM_ASSERT_HANDLER"],
-                  "safe": ["-DVH_CONTRACT", "-DTETL_ENABLE_CONTRACT_CHECKS_SAFE", "-DTETL_ENABLE_CUSTOM_ASSERT_HANDLER"]}
+# -fsanitize=unreachable,return (cheap UBSan subset): a violating call that runs into etl::unreachable() or off the end
+# of a function must stop deterministically (-> outcome "trap" = contract-missed) instead of falling through by luck
+_UB = ["-fsanitize=unreachable,return", "-fno-sanitize-recover=all"]
+CONTRACT_FLAGS = {"checks": ["-DVH_CONTRACT", "-DTETL_ENABLE_CONTRACT_CHECKS", "-DTETL_ENABLE_CUSTOM_ASSERT_HANDLER"] + _UB,
+                  "safe": ["-DVH_CONTRACT", "-DTETL_ENABLE_CONTRACT_CHECKS_SAFE", "-DTETL_ENABLE_CUSTOM_ASSERT_HANDLER"] + _UB}
 
 
 def build_drivers(tier, sanitize=False, std=True, contract=None):
